@@ -28,6 +28,7 @@ static void run_case(CaseCtx& c)
     go.Rmax = rng.pick({1.0, 1.3, 2.0});
     GridSpec gs = gen_grid(rng, go);
     ProblemSpec ps = random_problem(rng, go.Rmax, true);
+    maybe_mirror(rng, ps);
     bool dirbc = rng.coin();
     int threads = rng.pick({1, 2, 4, 7, 16});
     if (large)
